@@ -343,6 +343,104 @@ def idiom_c(body, wl):
                  "body proceeds only then (6 cases)", rows
 
 
+def idiom_e(body, wl):
+    """Finite-height marks: a table indexed by the popped item's key holds a value of a field-less enum;
+    the body proceeds past the look-up only on paths that change the entry, and the changes follow an
+    acyclic order on the variants (a mark never returns to an earlier value). Each key is then worked
+    on at most (number of variants - 1) times, so the pushes are bounded. Decided by exploring the loop
+    body once per (old mark, flag of the popped item) with the table look-up modelled as a cell holding
+    the old mark."""
+    blocks = body["mir"]["blocks"]
+    lex = wl.get("lex")
+    if lex is None:
+        return False, "no crate information"
+    locals_ = body["mir"]["locals"]
+    marks = None
+    for bi, name, t in cfg.calls_in(blocks, wl["members"]):
+        if (name or "").endswith("IndexMut>::index_mut") and not t["dest"]["p"]:
+            m = re.match(r"^&mut (.+)$", str(locals_[t["dest"]["l"]]))
+            adt = lex.adt(m.group(1)) if m else None
+            if adt is not None and len(adt["variants"]) >= 2 and all(not v["fields"] for v in adt["variants"]):
+                marks = (m.group(1), adt)
+    if marks is None:
+        return False, "no table of field-less marks indexed in the loop"
+    mty, adt = marks
+    variants = [v["name"] for v in adt["variants"]]
+    heads = set(wl["loops"])
+    elem_ty = None
+    m = re.match(r"^std::option::Option<(.+)>$", locals_[blocks[wl["pop"]]["term"]["dest"]["l"]])
+    if m:
+        elem_ty = m.group(1)
+    iadt = lex.adt(elem_ty) if (elem_ty and not elem_ty.startswith("(")) else None
+    has_flag = bool(elem_ty) and "bool" in elem_ty if iadt is None else any(
+        f["ty"] == "bool" for f in iadt["variants"][0]["fields"])
+
+    def popped_value(flag):
+        if iadt is not None and len(iadt["variants"]) == 1:
+            v = iadt["variants"][0]
+            fields = tuple((f["name"], ("int", flag, "bool") if f["ty"] == "bool" else ("sym", f["name"]))
+                           for f in v["fields"])
+            return ("adt", elem_ty, v["name"], 0, fields)
+        if elem_ty and elem_ty.startswith("("):
+            n = elem_ty.count(",") + 1
+            parts = [p.strip() for p in elem_ty.strip("()").split(",")]
+            return ("tuple", tuple(("int", flag, "bool") if p == "bool" else ("sym", "f%d" % i)
+                                   for i, p in enumerate(parts)))
+        return ("sym", "item")
+    edges = set()
+    bad = []
+    cases = 0
+    for oi, old in enumerate(variants):
+        for flag in ((0, 1) if has_flag else (0,)):
+            cases += 1
+
+            def models(eng, st, c, flag=flag):
+                n = c.callee or ""
+                if n == "std::vec::Vec::pop":
+                    return [(st, some(popped_value(flag)))]
+                if n.endswith("IndexMut>::index_mut"):
+                    return [(st, ("ref", ("sym", "mark"), ()))]
+                if n == "std::vec::Vec::push" or n.endswith("std::iter::Extend>::extend"):
+                    st.events.append(("push", c.args[1]))
+                    return [(st, ("unit",))]
+                return None
+            eng = Engine(body, models=models, stop_blocks=heads)
+            st0 = Path()
+            st0.set_cell(("sym", "mark"), (), ("adt", mty, old, oi, ()))
+            res = eng.run(wl["head"], st0)
+            if not res:
+                bad.append("%s, flag %s: no path" % (old, flag))
+                continue
+            for st, end in res:
+                pushed = any(e[0] == "push" for e in st.events)
+                fin = (st.cells.get(("sym", "mark")) or {}).get(())
+                fin_name = fin[2] if (fin and fin[0] == "adt") else None
+                proceeds = pushed or not (end[0] == "STOP" and end[1] == wl["head"])
+                if fin_name is None:
+                    bad.append("%s, flag %s: the mark is overwritten by an unknown value" % (old, flag))
+                elif proceeds and fin_name == old:
+                    bad.append("%s, flag %s: the body proceeds without changing the mark" % (old, flag))
+                elif fin_name != old:
+                    edges.add((old, fin_name))
+    # the changes must follow an acyclic order
+    order = {v: set() for v in variants}
+    for a, b in edges:
+        order[a].add(b)
+    def reach(a, seen):
+        for b in order[a]:
+            if b not in seen:
+                seen.add(b)
+                reach(b, seen)
+        return seen
+    for v in variants:
+        if v in reach(v, set()):
+            bad.append("mark %s can return to itself (%s)" % (v, sorted(edges)))
+    if bad:
+        return False, "; ".join(bad[:4])
+    return True, "table of %d-valued marks: the body proceeds only when the popped key's mark changes, along %s " \
+                 "(%d cases)" % (len(variants), sorted(edges), cases)
+
+
 def idiom_d(body, wl):
     """Traversal of a finite tree with an explicit stack: every item that is pushed carries, in each
     field of a recursive type (a reference to / box of the type the popped payload has), a strict
@@ -451,16 +549,18 @@ def check_rwl(ctx, prog):
             okb, wb = idiom_b(b, wl)
             okc, wc, _ = idiom_c(b, wl)
             okd, wd = (False, "") if (oka or okb or okc) else idiom_d(b, wl)
-            which = "A" if oka else "B" if okb else "C" if okc else "D" if okd else None
+            oke, we = (False, "") if (oka or okb or okc or okd) else idiom_e(b, wl)
+            which = "A" if oka else "B" if okb else "C" if okc else "D" if okd else "E" if oke else None
             ctx.ob("R-WL", "worklist loop in %s makes progress (idiom %s: %s)" % (
-                name, which, wa if oka else wb if okb else wc if okc else wd if okd else "none"),
+                name, which, wa if oka else wb if okb else wc if okc else wd if okd else we if oke else "none"),
                 which is not None, key="R-WL:%s" % name,
                 where="%s (loop head bb%d)" % (b["span"], wl["head"]),
-                detail={"A": wa, "B": wb, "C": wc, "D": wd,
+                detail={"A": wa, "B": wb, "C": wc, "D": wd, "E": we,
                         "meaning": "a worklist whose pushes are not bounded by a growing visited "
                                    "set / monotone map may never empty: macro expansion hangs, or "
                                    "flags depend on visit order"})
-            ctx.sample({"worklist": name, "idiom": which, "why": wa if oka else wb if okb else wc if okc else wd})
+            ctx.sample({"worklist": name, "idiom": which,
+                        "why": wa if oka else wb if okb else wc if okc else wd if okd else we})
     ctx.floor("worklist loops in crate lexgen (state closure, subset construction, backtrack flags)",
               sum(len(v) for v in found.values()), 3)
     # the worklist whose items carry a boolean flag (the backtrack pass, wherever it lives): the flag of
@@ -484,9 +584,10 @@ def check_rwl(ctx, prog):
     for name, ub, wl, adt in flagged:
         okc, wc, rows = idiom_c(ub, wl)
         oka, wa = idiom_a(ub, wl)
+        oke, we = (False, "") if (okc or oka) else idiom_e(ub, wl)
         ctx.ob("R-WL", "update_backtracks: a state's backtrack flag is only ever raised "
-               "(monotone) or each (state, flag) pair is visited once", okc or oka,
-               key="R-WL:update_backtracks:monotone", where=ub["span"], detail=wc)
+               "(monotone) or each (state, flag) pair is visited once", okc or oka or oke,
+               key="R-WL:update_backtracks:monotone", where=ub["span"], detail=[wc, we])
         sym = Sym(ub, {}, crate=lex)
         flag_path = (("f", 1),)
         if adt is not None:
